@@ -199,3 +199,23 @@ theorem certOn_of_backed (c : Cfg) (s : State) (i : ℕ) (x : Cert) (hb : CertBa
     exact Q_of_isQuorum c i _ _ hthr (certStake_le_w c i x _ (fun v hv => h1 _ hv) (fun v hv => h2 _ hv))
 
 end AgModel.Cluster
+
+namespace AgModel.Cluster
+open AgModel AgModel.Pool AgModel.Spec
+
+/-- the Byzantine stake, as a list computation -/
+def byzStake (c : Cfg) : ℕ := stakeOf (c.epoch 0) ((List.range c.n).filter (fun i => !c.correct i))
+
+theorem w_byz (c : Cfg) : w (stakeFn c) (byz c) = byzStake c := by
+  unfold byzStake
+  rw [stakeOf_filter_eq_w]
+  congr 1
+  funext v
+  unfold byz
+  cases c.correct v.val <;> simp
+
+/-- the hypothesis "less than 20 % of the stake is Byzantine" in computable form -/
+theorem byz_bound_iff (c : Cfg) : 5 * w (stakeFn c) (byz c) < total (stakeFn c) ↔ 5 * byzStake c < c.stakes.sum := by
+  rw [w_byz, total_eq]
+
+end AgModel.Cluster
